@@ -752,6 +752,16 @@ pub fn main_entry(
 	let evdir = Path::new(VERIF_ROOT).join("evidence");
 	let _ = std::fs::create_dir_all(&evdir);
 	let evpath = evdir.join(format!("{}.json", spec.prop));
+	// A property decided by two engines (C03): the second phase of the same check invocation
+	// adds its numbers to the evidence written by the first phase.
+	let ev = if std::env::var("PDBV_EVIDENCE_MERGE").is_ok() {
+		match std::fs::read_to_string(&evpath).ok().and_then(|t| J::parse(&t).ok()) {
+			Some(prev) if prev.get("tier").and_then(|x| x.as_str()) == Some(args.tier.name()) && prev.get("seed").and_then(|x| x.as_u64()) == Some(base_seed) => merge_evidence(prev, ev),
+			_ => ev,
+		}
+	} else {
+		ev
+	};
 	let tmp = evdir.join(format!(".{}.json.tmp", spec.prop));
 	std::fs::write(&tmp, ev.to_pretty()).expect("write evidence");
 	std::fs::rename(&tmp, &evpath).expect("rename evidence");
@@ -793,6 +803,50 @@ pub fn main_entry(
 	}
 	let _ = writeln!(so, "OK property={} held on everything explored", spec.prop);
 	std::process::exit(0);
+}
+
+fn merge_evidence(prev: J, cur: J) -> J {
+	let num = |j: &J, path: &[&str]| -> f64 {
+		let mut x = j;
+		for p in path {
+			match x.get(p) {
+				Some(y) => x = y,
+				None => return 0.0,
+			}
+		}
+		match x {
+			J::Int(i) => *i as f64,
+			J::Num(f) => *f,
+			_ => 0.0,
+		}
+	};
+	let mut out = cur.clone();
+	let mut cov = cur.get("coverage").cloned().unwrap_or_else(J::obj);
+	let pcov = prev.get("coverage").cloned().unwrap_or_else(J::obj);
+	for k in ["evaluations", "distinct_nontrivial", "cases"] {
+		cov.put(k, J::i((num(&prev, &["coverage", k]) + num(&cur, &["coverage", k])) as i64));
+	}
+	let rule = format!(
+		"PHASE 1: {} PHASE 2: {} (distinct_nontrivial is the sum of the two phases' class counts; the class spaces are disjoint)",
+		pcov.get("rule").and_then(|x| x.as_str()).unwrap_or(""),
+		cov.get("rule").and_then(|x| x.as_str()).unwrap_or("")
+	);
+	cov.put("rule", J::s(rule));
+	let mut samples = pcov.get("samples").and_then(|x| x.as_arr()).cloned().unwrap_or_default();
+	samples.extend(cov.get("samples").and_then(|x| x.as_arr()).cloned().unwrap_or_default());
+	cov.put("samples", J::Arr(samples));
+	cov.put("phase1", J::obj().set("observed", pcov.get("observed").cloned().unwrap_or(J::Null)).set("inconclusive", pcov.get("inconclusive").cloned().unwrap_or(J::Null)).set("known_findings_observed", pcov.get("known_findings_observed").cloned().unwrap_or(J::Null)));
+	out.put("coverage", cov);
+	out.put("wall_s", J::Num(num(&prev, &["wall_s"]) + num(&cur, &["wall_s"])));
+	out.put("violations", J::i((num(&prev, &["violations"]) + num(&cur, &["violations"])) as i64));
+	let mut assumptions = prev.get("assumptions").and_then(|x| x.as_arr()).cloned().unwrap_or_default();
+	assumptions.extend(cur.get("assumptions").and_then(|x| x.as_arr()).cloned().unwrap_or_default());
+	out.put("assumptions", J::Arr(assumptions));
+	let pv = prev.get("verdict").and_then(|x| x.as_str()).unwrap_or("");
+	let cv = cur.get("verdict").and_then(|x| x.as_str()).unwrap_or("");
+	let verdict = if pv == "violated" || cv == "violated" { "violated" } else if pv == "inconclusive" || cv == "inconclusive" { "inconclusive" } else { "held_on_observed" };
+	out.put("verdict", J::s(verdict));
+	out
 }
 
 /// One line per thread of this process: name, state, voluntary/involuntary context switches.
